@@ -183,7 +183,7 @@ def sweep_cases(tier, seed):
 def soak_cases(tier, seed):
     """a pool that has been in use for a long time: a thousand and more calls on one pooled client, every few of them failing
     at the socket, idle gaps in between - after each of them the same rules hold as after the first"""
-    n = 1200 if tier == "quick" else 12000
+    n = 1200 if tier == "quick" else 4000
     faults = [{"kind": "recv", "nth": 0, "what": "reset"}, {"kind": "sendall", "nth": 0, "what": "pipe", "delivered": "none"}, {"kind": "recv", "nth": 0, "what": "timeout"},
               {"reply": 0, "tamper": "garbage"}, {"kind": "connect", "nth": 0, "what": "refused"}, {"reply": 0, "tamper": "server_error"}]
     for mi, mx in enumerate((1, 2, None)):
